@@ -297,6 +297,11 @@ func callRole(e paths.Event, x *ssa.Call) string {
 		for _, a := range as {
 			args = append(args, role(e, a))
 		}
+		// copy(dst, src) with a source of constant length N and an unsliced destination moves min(len(dst), N) octets: the
+		// same effect as copy(dst[:N], src) wherever dst holds at least N octets (which the length rules establish)
+		if name == "copy" && len(args) == 2 && strings.HasPrefix(args[1], "make(k") && strings.HasSuffix(args[1], ")") && !strings.Contains(args[1][5:len(args[1])-1], "(") && !strings.HasSuffix(args[0], "]") {
+			args[0] += "[:" + args[1][5:len(args[1])-1] + "]"
+		}
 	}
 	return name + "(" + strings.Join(args, ",") + ")"
 }
@@ -766,7 +771,7 @@ func blockedRules(c *core.Ctx, key, pos string, ps []c04path) {
 			}
 		}
 		if !has(p.sig, "call:copy("+frame+"[:k4],"+pre+")") {
-			blocked = append(blocked, "the 4 prefix octets are not copied to frame[:4]")
+			blocked = append(blocked, "the 4 prefix octets are not copied to frame[:4] (path: "+strings.Join(p.sig, " ; ")+")")
 		}
 		if p.r0 != frame {
 			blocked = append(blocked, "the frame returned is "+p.r0+", expected the buffer of L octets")
